@@ -220,6 +220,10 @@ class World:
                     sim.ev("handler-exception", name)
         finally:
             sim.in_handler = False
+        if ev == "RTM_NEWNEIGH":
+            orc.after_newneigh()
+        elif ev == "RTM_DELROUTE":
+            orc.after_delroute()
         self.after_event("deliver")
 
     def run_pingloop(self, thread):
@@ -292,7 +296,6 @@ class World:
 
     def apply(self, op):
         k, sim = self.k, self.sim
-        sim.sk("op",) if False else None
         sim.sk(*op)
         sim.ev("op", op)
         kind = op[0]
